@@ -75,6 +75,32 @@ pub proof fn lemma_vv_value_map(v: Value)
     requires v is Map,
     ensures vv(v) == CV::Map(vv_pairs(map_of(v))),
 { match v { Value::Map(a) => { lemma_vv_map(a); } _ => {} } }
+pub proof fn lemma_map_elem_decreases(v: Value, n: int)
+    requires v is Map, 0 <= n < map_of(v).len(),
+    ensures decreases_to!(v => map_of(v)[n].1), decreases_to!(v => map_of(v)[n].0),
+{
+    match v {
+        Value::Map(mm) => {
+            assert(decreases_to!(v => mm));
+            assert(decreases_to!(mm => mm@[n]));
+            assert(decreases_to!(mm@[n] => mm@[n].1));
+            assert(decreases_to!(mm@[n] => mm@[n].0));
+        }
+        _ => {}
+    }
+}
+pub proof fn lemma_arr_elem_decreases(v: Value, n: int)
+    requires v is Array, 0 <= n < arr_of(v).len(),
+    ensures decreases_to!(v => arr_of(v)[n]),
+{
+    match v {
+        Value::Array(a) => {
+            assert(decreases_to!(v => a));
+            assert(decreases_to!(a => a@[n]));
+        }
+        _ => {}
+    }
+}
 pub open spec fn in_i64(i: int) -> bool { i64::MIN <= i <= i64::MAX }
 
 pub assume_specification [ <i64 as TryFrom<Integer>>::try_from ] (i: Integer) -> (r: core::result::Result<i64, <i64 as TryFrom<Integer>>::Error>)
